@@ -157,6 +157,7 @@ const TAGS: &[&str] = &[
     "<view wx:if=\"{{ a }}\">A</view>&#32;<view wx:else>B</view>",
     "<text>{{ ' ' }}</text><text>{{ \" \" + '' }}</text><view>{{ '\\n' }}</view>",
     "<view> {{ }} </view><text>x</text>",
+    "<include src=\"a.wxml.wxml\"/><import src=\"lib.wxml.wxml\"/><include src=\"./b.wxml\"/><import src=\"/c\"/><text>{{ a }}</text>",
     "<template name=\"t\"><text>{{ a }}:{{ x }}</text></template><template is=\"t\" data=\"{{ (obj) }}\"/><template is=\"t\" data=\"{{ ((obj)) }}\"/>",
     "<template name=\"t\"><text>{{ a }}:{{ x }}</text></template><template is=\"t\" data=\"{{ a }}\"/><template is=\"t\" data=\"{{ {a} }}\"/><template is=\"t\" data=\"{{ a: b }}\"/>",
     "<view title=\"line1\nline2\t{{ a }}\">x\ty</view>",
